@@ -39,7 +39,11 @@ def main():
     # where does the demo live in the agent's worktree?
     rc, untracked = sh("git ls-files --others --exclude-standard", cwd=src)
     demos = [l for l in untracked.split("\n") if l.endswith("_test.go") and not l.startswith("seed_out/")]
-    rc, _ = sh("git diff HEAD > /tmp/seedeval.diff", cwd=src)
+    # the agent's own patch.diff is authoritative (worktrees share one git stash: a worktree's diff may be contaminated)
+    if os.path.exists(os.path.join(so, "patch.diff")):
+        shutil.copy(os.path.join(so, "patch.diff"), "/tmp/seedeval.diff")
+    else:
+        rc, _ = sh("git diff HEAD > /tmp/seedeval.diff", cwd=src)
     patch = open("/tmp/seedeval.diff").read()
     open(os.path.join(out, "patch.diff"), "w").write(patch)
     touched = sorted(set(re.findall(r"^\+\+\+ b/(\S+)", patch, re.M)))
